@@ -457,6 +457,42 @@ func checkC14(c *Ctx, r *Report) {
 			continue
 		}
 		r4.Check(len(res.failures) == 0, k+": value changes by exactly the change of the tag entries on every path", f.Pos(), res.paths, fmt.Sprintf("%d events, %d paths", res.events, res.paths), "the cached total drifts from the sum of the tags: peers are ordered for trimming by a wrong value", strings.Join(res.failures, " | "))
+		// the arithmetic above is per path; it describes what happens only if the entry read and the update form one
+		// critical section: between reading a tag entry (or the total) and writing tags / value the segment lock is
+		// not released (an update computed from a value read before the release overwrites what another writer did
+		// in between)
+		isRead := func(in ssa.Instruction) bool {
+			// (the entry: what the update is computed from; `value += d` re-reads the total by itself)
+			x, ok := in.(*ssa.Lookup)
+			return ok && isLoadOfField(piT+".tags")(strip2(x.X))
+		}
+		isWrite := func(in ssa.Instruction) bool {
+			if st, ok := in.(*ssa.Store); ok && localAllocRoot(st.Addr) != nil {
+				return false
+			}
+			return isAcctEvent(spec, in)
+		}
+		isRelease := func(in ssa.Instruction) bool {
+			if _, deferred := in.(*ssa.Defer); deferred {
+				return false
+			}
+			return isCallTo(in, "(*sync.Mutex).Unlock", "(*sync.RWMutex).Unlock")
+		}
+		reads := findInstrs(f, isRead)
+		if len(reads) > 0 {
+			// a release reached from a read, from which a write is still reached
+			bad := ""
+			nEx := 0
+			for _, rel := range findInstrs(f, isRelease) {
+				w1, n1 := (&Cut{Fn: f, From: reads, Target: isInstr(rel), Sep: isWrite}).Run(c)
+				w2, n2 := (&Cut{Fn: f, From: []ssa.Instruction{rel}, Target: isWrite, Sep: isRead}).Run(c)
+				nEx += n1 + n2
+				if w1 != "" && w2 != "" {
+					bad = c.Pos(instrPos(rel)) + ": " + w1
+				}
+			}
+			r4.Check(bad == "", k+": the entry read and the update of tags / value form one critical section", f.Pos(), nEx+1, "", "two overlapping tag operations on one peer lose an update: the total no longer equals the sum of the tags", bad)
+		}
 	}
 	var scope []*ssa.Function
 	scope = append(scope, c.FnsOfPkg(cmP)...)
